@@ -43,6 +43,7 @@ M = [
  ('C03', 'M12 Dict write primitive: undeclared keys stored untyped', DP, "      field = self._value_spec.schema.get_field(key)\n      if not field:", "      field = self._value_spec.schema.get_field(key)\n      if False:"),
  ('C03', 'M13 Schema.apply: unknown keys tolerated when the dict is non-empty', CS, "    if unmatched_keys:\n      raise KeyError(\n          f'Keys {unmatched_keys} are not allowed in Schema. '", "    if unmatched_keys and not dict_obj:\n      raise KeyError(\n          f'Keys {unmatched_keys} are not allowed in Schema. '"),
  ('C03', 'M14 __delitem__: drop the min_size test', LP, "    if (self._value_spec\n        and len(self) - len(indices) < self._value_spec.min_size):", "    if False:"),
+ ('C03', 'M16 Dict._formalized_value: a nested (parented) Dict no longer applies the field spec', DP, "    if field and flags.is_type_check_enabled():\n      value = field.apply(", "    if field and flags.is_type_check_enabled() and self.sym_parent is None:\n      value = field.apply("),
  ('C03', 'M15 Dict.custom_apply: adopt the partial mode before checking (F75 reverted)', DP, "        if not allow_partial and self.is_partial:", "        if False:"),
 ]
 
